@@ -150,12 +150,12 @@ theorem token_pushed {cfg : Cfg} {b : Builder} (hb : BInv cfg b) (k : Nat) (s : 
       have hp := intern_prefix hin
       have hres := intern_resolve hin
       have hci' : CacheInv cfg { b.cache with interner := I' } := hb.cache.mono hp.1
-      obtain ⟨id, hid, hci, hint⟩ := Cache.token_spec hci' (k, some key, blen s) (by simp [GWf, hres])
+      obtain ⟨id, hid, hci, hint⟩ := Cache.token_spec hci' (k, some key, blen s) (by simp [GWf, hres, hst])
       have hint' : (Cache.token { b.cache with interner := I' } (k, some key, blen s)).2.interner = I' := hint
       refine ⟨_, rfl, ⟨rfl, ⟨hci, ?_⟩, ?_, ?_, ?_, ⟨[(Cache.token { b.cache with interner := I' } (k, some key, blen s)).1], rfl, ?_⟩⟩⟩
       · simp only [hint']
         rw [GWfL_append]; refine ⟨GWfL_mono hp.1 _ hb.kids, ?_⟩
-        simp only [hid]; simp [GWfL, GWf, hres]
+        simp only [hid]; simp [GWfL, GWf, hres, hst]
       · simp only [hint']; exact hp.1
       · simp only [hint']; exact hp.2
       · simp only [hint']
